@@ -27,7 +27,9 @@ static void worker(int w, int W, uint64_t start)
     if (CF2.K) { wexp_index_base = 1ULL << 40; if (start < (2ULL << 40)) wexp_explore(&CF2, w, W, start >= (1ULL << 40) ? start - (1ULL << 40) : 0, "writer"); }
     if (CF3.K) { wexp_index_base = 2ULL << 40; if (start < (3ULL << 40)) wexp_explore(&CF3, w, W, start >= (2ULL << 40) ? start - (2ULL << 40) : 0, "writer"); }
     /* pass 4: payloads of 32768 and 40000 bytes (4-byte length prefix), capacities around every piece boundary */
-    wexp_index_base = 3ULL << 40; wexp_explore(&CF4, w, W, start >= (3ULL << 40) ? start - (3ULL << 40) : 0, "writer");
+    wexp_index_base = 3ULL << 40; if (start < (4ULL << 40)) wexp_explore(&CF4, w, W, start >= (3ULL << 40) ? start - (3ULL << 40) : 0, "writer");
+    /* pass 5: single parametric operations over value and length families */
+    wexp_index_base = 4ULL << 40; wexp_values(&CF, w, W, start >= (4ULL << 40) ? start - (4ULL << 40) : 0, "writer", vf_g.thorough ? 2100 : 400);
 }
 int main(int argc, char **argv)
 {
@@ -49,18 +51,21 @@ int main(int argc, char **argv)
     }
     if (vf_g.replay) { char *t = vf_replay_load(vf_g.replay); return wexp_replay(&CF, t); }
     int deaths = vf_run_workers(worker);
-    static char bound[1400];
+    static char bound[2400];
     snprintf(bound, sizeof bound,
              "every sequence of <= %d operations over %d write operations (begin/end object/array, booleans, integers at every width boundary, double, "
              "string_with_len 0/1/127/128/300, write_string, write_name, bytes 0/1/128, write_raw 0/2, parser_to_writer)%s x EVERY capacity from 0 to encoded size + 1; "
              "destination = heap block of exactly 'capacity' bytes pre-filled with 0xA5, under ASan",
              CF.K, CF.nalpha, (CF.with_noenc || CF3.K) ? ", plus each of 6 calls that have no encoding (length > INT32_MAX, SIZE_MAX, NULL sources, raw lengths that wrap the counter) inserted at every position of every sequence of <= 3 operations" : "");
     snprintf(bound + strlen(bound), sizeof bound - strlen(bound), "; every sequence of <= %d operations over 7 operations incl. string_with_len(40000) and bytes(32768) x every capacity within 3 of a piece boundary", CF4.K);
+    snprintf(bound + strlen(bound), sizeof bound - strlen(bound), "; single parametric operations (alone and between two one-byte tokens) x every capacity: integer +-2^k+d (k<64, |d|<=2), 10 double bit "
+             "patterns, string_with_len / bytes / write_string / write_raw of every length 0..%d, and of 2047, 2048, 4608, 4863, 32767..32769, 65535..65537, 65794, 70000 bytes at every "
+             "capacity within 3 of a piece boundary", vf_g.thorough ? 2100 : 400);
     if (CF2.K) snprintf(bound + strlen(bound), sizeof bound - strlen(bound), "; additionally every sequence of <= %d operations over a 16-operation sub-alphabet x every capacity", CF2.K);
     static const char *const assumptions[] = {
         "pieces are the units the writer stores atomically: a one-byte token, an integer/double token, a length descriptor, a payload",
         "operations without an encoding (length > INT32_MAX, NULL source) are only required to set an error and store nothing; no size is demanded after them",
-        "payload sizes are drawn from {0,1,2,4,127,128,300}: longer payloads behave as 300 does (one memmove bounded by the same test)"
+        "in operation SEQUENCES payload sizes are drawn from {0,1,2,4,127,128,300,32768,40000}; all other lengths and values are explored as single parametric operations"
     };
     static const int must[] = { CT_W_SEQS, CT_W_OVERFLOW_RUNS, CT_W_FIT_RUNS, CT_W_FALSE_CALLS, CT_W_ERR_RANGE };
     vf_evidence_spec es;
